@@ -415,18 +415,32 @@ func writeEvidence(prop, tier string, seed uint64, plan Plan, a *agg, enumRuns i
 			"clients":                    "stub (reference client model)",
 		},
 	}
+	assumptions := []string{
+		"transport guarantees of DESIGN.md §3.1: per-resource FIFO for get/query replies and events, everything else unordered; exactly one completion per request",
+		"services are protocol-correct except where the armed fault says otherwise",
+		"scheduling points are those inserted by verif-instrument rules R1-R4 (R1b for select loops); code between two points is atomic",
+		"bounds: at most 6 connections, 12 resource names, 4000 steps per run; seeded sampling, not enumeration",
+	}
+	if prop == "C18" {
+		cov["components"] = map[string]string{
+			"nats (resgate's adapter)":   "real (working tree of /repo, instrumented copy: yield point at the top of the listener loop, ticketed go statements, injected dialer option)",
+			"github.com/nats-io/nats.go": "real client library, unmodified, on the fake clock, connected through net.Pipe",
+			"NATS server":                "stub: in-bubble fake speaking the NATS text protocol (INFO/CONNECT/PING/PONG/SUB/UNSUB/PUB/HPUB/MSG/HMSG)",
+			"gateway (server, rescache)": "not part of these runs: the driver calls the adapter's mq.Client interface directly",
+		}
+		assumptions = []string{
+			"the fake server delivers what it is told to in the order it is told to (one TCP-like stream); it never reorders or duplicates on its own",
+			"scheduling points: the adapter's listener loop (one message per step) and the go statements of the adapter; the client library's own goroutines run to quiescence between steps",
+			"bounds: at most 40 requests and 4 event subscriptions per run, 320 steps; request timeout 3 s; seeded sampling, not enumeration",
+		}
+	}
 	ev := map[string]any{
 		"property_id": prop,
 		"tier":        tier,
 		"seed":        seed,
 		"level":       plan.Level,
 		"coverage":    cov,
-		"assumptions": []string{
-			"transport guarantees of DESIGN.md §3.1: per-resource FIFO for get/query replies and events, everything else unordered; exactly one completion per request",
-			"services are protocol-correct except where the armed fault says otherwise",
-			"scheduling points are those inserted by verif-instrument rules R1-R4; code between two points is atomic",
-			"bounds: at most 6 connections, 12 resource names, 2000 steps per run; seeded sampling, not enumeration",
-		},
+		"assumptions": assumptions,
 		"wall_s":     wall,
 		"violations": len(reported),
 	}
